@@ -1,7 +1,7 @@
 (* C19 - Supplementary file container never mixes up or loses file contents.
    Only statements here; every theorem is closed by [exact <lemma>]. *)
-From Coq Require Import List String.
-From Basyx Require Import model.Files proofs.FilesProofs.
+From Coq Require Import List String ZArith.
+From Basyx Require Import model.Files proofs.FilesProofs model.FileStreams proofs.FileStreamsProofs.
 Import ListNotations.
 
 (* The bookkeeping invariant (refcounts = number of names per content; content stored
@@ -62,4 +62,40 @@ Example C19_example :
   let ops := [Add "a.pdf" 1 0; Add "a.pdf" 2 0; Add "b/c" 1 0; Del "a.pdf"; Add "a.pdf" 1 1] in
   map (fun n => lookup (run ops) n) ["a.pdf"; "a_0001.pdf"; "b/c"; "zz"]%string
   = [Some (1, 1); Some (2, 0); Some (1, 0); None].
+Proof. vm_compute. reflexivity. Qed.
+
+(* The content add_file stores is what the file object's read() yields from its CURRENT position
+   (model/FileStreams.v), for every stream state: in any reachable state the name handed out yields the
+   token of exactly those bytes (and the supplied type), all clauses of C19_add hold for that content, the
+   stream is left exhausted, and for a stream positioned behind a consumed prefix the stored content is not
+   the whole buffer (premise: the token function - SHA-256 in the code - does not identify these two byte
+   strings).  tok is any function from byte strings to the content tokens of model/Files.v. *)
+Theorem C19_stream : forall (tok : list Z -> content) ops name f t,
+  let s := run ops in
+  let data := skipn (spos f) (sbuf f) in
+  let r := add_file_stream tok s name f t in
+  let s' := fst (fst r) in
+  exists n', snd (fst r) = OName n' /\
+    write_file s' n' = OData (tok data) /\ get_content_type s' n' = OCtype t /\
+    get_sha256 s' n' = OHash (tok data) /\
+    (forall m, m <> n' -> lookup s' m = lookup s m) /\
+    (lookup s n' = None \/ (lookup s n' = Some (tok data, t) /\ s' = s)) /\
+    ((lookup s name = None \/ lookup s name = Some (tok data, t)) -> n' = name) /\
+    (0 < spos f <= List.length (sbuf f) -> (tok data = tok (sbuf f) -> data = sbuf f) ->
+       write_file s' n' <> OData (tok (sbuf f))) /\
+    fst (read_all (snd r)) = nil.
+Proof. intros tok ops name f t. exact (add_stream_spec tok (run ops) name f t (Inv_run ops)). Qed.
+
+(* Non-vacuity: a length-prefixed body whose prefix has been consumed (position 4), then the same payload from a
+   fresh stream under the same name (same name back), then the exhausted first stream (no bytes).  The token
+   function here is the length, which tells the byte strings involved apart. *)
+Example C19_stream_example :
+  let tok := @List.length Z in
+  let body := mkStream [0; 0; 0; 2; 37; 80]%Z 4 in
+  let r1 := add_file_stream tok init "/docs/manual.pdf" body 0 in
+  let r2 := add_file_stream tok (fst (fst r1)) "/docs/manual.pdf" (mkStream [37; 80]%Z 0) 0 in
+  let r3 := add_file_stream tok (fst (fst r2)) "/empty.bin" (snd r1) 1 in
+  (snd (fst r1), snd (fst r2), snd (fst r3),
+   map (fun n => lookup (fst (fst r3)) n) ["/docs/manual.pdf"; "/empty.bin"; "/docs/manual_0001.pdf"]%string)
+  = (OName "/docs/manual.pdf", OName "/docs/manual.pdf", OName "/empty.bin", [Some (2, 0); Some (0, 1); None]).
 Proof. vm_compute. reflexivity. Qed.
